@@ -714,6 +714,39 @@ def _ax_slice_any(call):
     return NotImplemented
 
 
+AXIOMS["<impl IntoIterator for &'a [T]>::into_iter"] = ax_slice_iter
+AXIOM_DOC["<impl IntoIterator for &'a [T]>::into_iter"] = "as <[T]>::iter"
+
+
+def _ax_slice_iter_next(call):
+    """next element of a slice iterator whose slice has a known small length: a reference to element i"""
+    addr = call.deref_addr(call.args[0])
+    it = call.deref(call.args[0])
+    sl = it.get((("f", "@slice"),))
+    if addr is None or not sl or sl[0] != "ref":
+        return NotImplemented
+    n = call.interp.len_of(call.st, sl)
+    if n[0] != "int" or n[1] > 6:
+        return NotImplemented
+    i = it.get((("f", "@idx"),), ("int", 0))
+    if i[0] != "int":
+        return NotImplemented
+    if i[1] >= n[1]:
+        return call.ret(mk_variant("None"))
+    # element address: through a prefix sub-slice to its base, else directly under the slice's own root
+    root, path = sl[1], sl[2]
+    base = call.st.mem.get(root, {}).get(path + (("$base0",),))
+    if base and base[0] == "ref":
+        root, path = base[1], base[2]
+    elem_path = path + (("f", "#%d" % i[1]),)
+    if not any(p[:len(elem_path)] == elem_path for p in call.st.mem.get(root, {})):
+        return NotImplemented
+    call.st.write_leaf(addr[0], addr[1] + (("f", "@idx"),), ("int", i[1] + 1))
+    return call.ret(mk_variant("Some", leaf_tree(("ref", root, elem_path))))
+
+
+AXIOMS["<Iter<'a, T> as Iterator>::next"] = _ax_slice_iter_next
+AXIOM_DOC["<Iter<'a, T> as Iterator>::next"] = "slice iterator over a slice of known small length: Some(&s[i]) in order, then None"
 AXIOMS["<Iter<'a, T> as Iterator>::any"] = _ax_slice_any
 AXIOM_DOC["<Iter<'a, T> as Iterator>::any"] = "false over an empty slice; membership when the predicate is equality with a captured value and the elements are known"
 
